@@ -3,13 +3,10 @@ package main
 import (
 	"fmt"
 	"go/ast"
-	"go/constant"
 	"go/token"
 	"go/types"
-	"math"
 	"regexp"
 	"sort"
-	"strconv"
 	"strings"
 	"text/template/parse"
 
@@ -407,36 +404,20 @@ func (c *Ctx) fieldCorrespondence(info *types.Info, tk []tmplKey, rk map[string]
 
 func (c *Ctx) defaultElision(info *types.Info) {
 	t := c.fontTemplate()
-	// defaults in Read
-	rd := c.funcDecl("type1", "", "Read")
+	// defaults in Read: the constant that flows into the PrivateDict field when the key is absent
+	read := c.fn("type1", "Read")
+	privT := c.typeObj("type1", "PrivateDict")
 	defaults := map[string]float64{}
 	for _, key := range []string{"BlueScale", "BlueShift", "BlueFuzz"} {
-		for i, st := range rd.Body.List {
-			uses := false
-			ast.Inspect(st, func(n ast.Node) bool {
-				if ix, ok := n.(*ast.IndexExpr); ok {
-					if s, ok := constStrOf(info, ix.Index); ok && s == key {
-						uses = true
-					}
-				}
-				return true
-			})
-			if !uses {
-				continue
+		var consts []float64
+		eachInstr(read, func(ins ssa.Instruction) {
+			if st, ok := ins.(*ssa.Store); ok && isFieldAddr(st.Addr, privT, key) {
+				consts = append(consts, c.constSources(st.Val)...)
 			}
-			for j := i; j < len(rd.Body.List) && j <= i+1; j++ {
-				if ifs, ok := rd.Body.List[j].(*ast.IfStmt); ok && ifs.Else != nil {
-					ast.Inspect(ifs.Else, func(n ast.Node) bool {
-						if as, ok := n.(*ast.AssignStmt); ok && len(as.Rhs) == 1 {
-							if v, ok := constOf(info, as.Rhs[0]); ok {
-								f, _ := constant.Float64Val(constant.ToFloat(v))
-								defaults[key] = f
-							}
-						}
-						return true
-					})
-				}
-			}
+		})
+		consts = uniqFloats(consts)
+		if len(consts) == 1 {
+			defaults[key] = consts[0]
 		}
 	}
 	for _, it := range t.allItems() {
@@ -445,33 +426,47 @@ func (c *Ctx) defaultElision(info *types.Info) {
 			continue
 		}
 		s := it.action
-		switch {
-		case strings.Contains(s, ".BlueScale"):
-			nums := regexp.MustCompile(`\.\d+|\d+\.\d+`).FindAllString(s, -1)
-			okW := false
-			detail := s
-			if len(nums) == 2 && strings.Contains(s, "or (lt .BlueScale") && strings.Contains(s, "(gt .BlueScale") {
-				lo, _ := strconv.ParseFloat(nums[0], 64)
-				hi, _ := strconv.ParseFloat(nums[1], 64)
-				d := defaults["BlueScale"]
-				okW = math.Abs((d-lo)-1e-6) < 1e-9 && math.Abs((hi-d)-1e-6) < 1e-9
-				detail = fmt.Sprintf("elided inside [%g, %g], default %g", lo, hi, d)
+		key := ""
+		for _, k := range []string{"BlueScale", "BlueShift", "BlueFuzz"} {
+			if strings.Contains(s, k) {
+				key = k
 			}
-			c.check(okW, "RT-DEFAULTS", "type1 template / type1.Read", "BlueScale is omitted exactly within 1e-6 of the default the reader substitutes", token.NoPos, detail, "the BlueScale elision window `"+s+"` is not default±1e-6 of the reader's default "+fmt.Sprint(defaults["BlueScale"])+": values outside the documented snap range come back as the default")
-		case strings.Contains(s, ".BlueShift"), strings.Contains(s, ".BlueFuzz"):
-			key := "BlueShift"
-			if strings.Contains(s, ".BlueFuzz") {
-				key = "BlueFuzz"
-			}
-			m := regexp.MustCompile(`^if ne \.` + key + ` (\d+)$`).FindStringSubmatch(s)
-			okD := false
-			if m != nil {
-				v, _ := strconv.ParseFloat(m[1], 64)
-				okD = v == defaults[key]
-			}
-			c.check(okD, "RT-DEFAULTS", "type1 template / type1.Read", key+" is omitted exactly when it equals the default the reader substitutes", token.NoPos, s, fmt.Sprintf("%s elision `%s` does not match the reader's default %g", key, s, defaults[key]))
 		}
-		_ = ifn
+		if key == "" {
+			continue
+		}
+		d, have := defaults[key]
+		// written(v): does the template write the entry for the value v
+		written := func(v float64) (bool, bool) { return c.tmplCond(ifn.Pipe, key, v) }
+		bad := ""
+		if !have {
+			bad = "the reader has no single default for " + key
+		}
+		type pt struct {
+			v    float64
+			want bool
+		}
+		var pts []pt
+		if key == "BlueScale" {
+			pts = []pt{{d, false}, {d + 0.9e-6, false}, {d - 0.9e-6, false}, {d + 1.1e-6, true}, {d - 1.1e-6, true}, {d * 2, true}, {0, true}}
+		} else {
+			pts = []pt{{d, false}, {d + 1, true}, {d - 1, true}, {0, d != 0}}
+		}
+		for _, p := range pts {
+			w, ok := written(p.v)
+			if !ok {
+				bad = "the condition `" + s + "` could not be evaluated"
+				break
+			}
+			if w != p.want && bad == "" {
+				bad = fmt.Sprintf("the value %g is %s although the reader's default is %g", p.v, map[bool]string{true: "written", false: "omitted"}[w], d)
+			}
+		}
+		if key == "BlueScale" {
+			c.check(bad == "", "RT-DEFAULTS", "type1 template / type1.Read", "BlueScale is omitted exactly within 1e-6 of the default the reader substitutes", token.NoPos, fmt.Sprintf("default %g; omitted at ±0.9e-6, written at ±1.1e-6", d), "the BlueScale elision `"+s+"`: "+bad+": values outside the documented snap range come back as the default")
+		} else {
+			c.check(bad == "", "RT-DEFAULTS", "type1 template / type1.Read", key+" is omitted exactly when it equals the default the reader substitutes", token.NoPos, s, fmt.Sprintf("%s elision `%s`: %s", key, s, bad))
+		}
 	}
 	c.floor("RT-DEFAULTS", 3)
 }
@@ -855,4 +850,141 @@ func dedupSorted(l []string) []string {
 		}
 	}
 	return out
+}
+
+// tmplCond evaluates the condition of a template {{if}} for one value of the fontInfo field
+// `key`: pipelines of or/and/not/lt/le/gt/ge/eq/ne over the field and number literals are
+// evaluated directly; a niladic method of the template data is evaluated on the SSA form with
+// the field set to the value.  Nothing is executed.
+func (c *Ctx) tmplCond(pipe *parse.PipeNode, key string, v float64) (bool, bool) {
+	type val struct {
+		f      float64
+		b      bool
+		isBool bool
+	}
+	var evalNode func(n parse.Node) (val, bool)
+	var evalCmd func(cmd *parse.CommandNode) (val, bool)
+	evalNode = func(n parse.Node) (val, bool) {
+		switch x := n.(type) {
+		case *parse.NumberNode:
+			if x.IsFloat {
+				return val{f: x.Float64}, true
+			}
+			if x.IsInt {
+				return val{f: float64(x.Int64)}, true
+			}
+		case *parse.BoolNode:
+			return val{b: x.True, isBool: true}, true
+		case *parse.FieldNode:
+			if len(x.Ident) == 1 && x.Ident[0] == key {
+				return val{f: v}, true
+			}
+			if len(x.Ident) == 1 {
+				// a method of the template data
+				fiT := c.typeObj("type1", "fontInfo")
+				for _, recv := range []types.Type{types.NewPointer(fiT.Type()), fiT.Type()} {
+					sel := types.NewMethodSet(recv).Lookup(c.pkg("type1").Types, x.Ident[0])
+					if sel == nil {
+						continue
+					}
+					fn := c.prog.MethodValue(sel)
+					if fn == nil || len(fn.Blocks) == 0 {
+						continue
+					}
+					ev := &ssaEval{c: c, bind: map[ssa.Value]sv{}, mem: map[string]sv{}}
+					ev.load = func(ld *ssa.UnOp, addr sv) (sv, bool) {
+						if addr.s == "fi."+key {
+							if bt, ok := ld.Type().Underlying().(*types.Basic); ok && bt.Info()&types.IsInteger != 0 {
+								return intV(int64(v)), true
+							}
+							return sv{k: svFloat, f: v}, true
+						}
+						return sv{}, false
+					}
+					ret := ev.runFunc(fn, []sv{{k: svAddr, s: "fi"}})
+					if len(ret) == 1 && ret[0].k == svBool {
+						return val{b: ret[0].b, isBool: true}, true
+					}
+				}
+			}
+		case *parse.PipeNode:
+			if len(x.Cmds) == 1 {
+				return evalCmd(x.Cmds[0])
+			}
+		case *parse.CommandNode:
+			return evalCmd(x)
+		}
+		return val{}, false
+	}
+	evalCmd = func(cmd *parse.CommandNode) (val, bool) {
+		if len(cmd.Args) == 1 {
+			return evalNode(cmd.Args[0])
+		}
+		id, ok := cmd.Args[0].(*parse.IdentifierNode)
+		if !ok {
+			return val{}, false
+		}
+		var args []val
+		for _, a := range cmd.Args[1:] {
+			x, ok := evalNode(a)
+			if !ok {
+				return val{}, false
+			}
+			args = append(args, x)
+		}
+		truth := func(x val) bool {
+			if x.isBool {
+				return x.b
+			}
+			return x.f != 0
+		}
+		switch id.Ident {
+		case "not":
+			if len(args) == 1 {
+				return val{b: !truth(args[0]), isBool: true}, true
+			}
+		case "or":
+			r := false
+			for _, a := range args {
+				r = r || truth(a)
+			}
+			return val{b: r, isBool: true}, true
+		case "and":
+			r := true
+			for _, a := range args {
+				r = r && truth(a)
+			}
+			return val{b: r, isBool: true}, true
+		case "lt", "le", "gt", "ge", "eq", "ne":
+			if len(args) != 2 || args[0].isBool || args[1].isBool {
+				return val{}, false
+			}
+			a, b := args[0].f, args[1].f
+			var r bool
+			switch id.Ident {
+			case "lt":
+				r = a < b
+			case "le":
+				r = a <= b
+			case "gt":
+				r = a > b
+			case "ge":
+				r = a >= b
+			case "eq":
+				r = a == b
+			case "ne":
+				r = a != b
+			}
+			return val{b: r, isBool: true}, true
+		}
+		return val{}, false
+	}
+	r, ok := evalNode(pipe)
+	if !ok {
+		return false, false
+	}
+	if r.isBool {
+		return r.b, true
+	}
+	return r.f != 0, true
 }
